@@ -17,6 +17,10 @@ from .. import replay_normdrop as RN
 KINDS = {"determinism", "error", "mode", "stats", "output", "input_grad", "mask", "dtype"}
 
 
+def Q(n, d=1):
+    return [n, d]
+
+
 def bn_history_runs(ctx, rep, kinds, acts, depth, label):
     """BatchNorm layer histories for the checks of other properties (C02: input gradients, C06: outputs)."""
     cfgs = []
@@ -31,8 +35,33 @@ RP = ("replay_normdrop", "BNReplayer")
 PROPS = ["EvalFreezesStats", "CounterStepsByOne"]
 
 
-def Q(n, d=1):
-    return [n, d]
+def drop_history_runs(ctx, rep, sg, kinds, depth, mc=False, dtypes=("float32",), forms=(False,), draws=3, nested=False,
+                      ps=(Q(0), Q(1, 2), Q(3, 4), Q(1)), inputs=([3, -2, 5], [1, 4]), grads=([2, -1, 3], [1, -2])):
+    """Dropout histories (mode switches, forward with every mask, backward) for p in {0, 1/2, 3/4, 1}"""
+    for p in ps:
+        consts = dict(Layer="drop", Batches=[], NC=1, Momentum=[], Affine=False, Track=False, Gamma=[], Beta=[], StatsSet=tlc.Raw("{}"),
+                      PDrop=p, Inputs=[list(x) for x in inputs], GradsIn=[list(x) for x in grads], MaxHist=depth, Acts={"mode", "fwd", "bwd"}, Nested=nested)
+        if mc:
+            HC.model_check(rep, "NormDrop", "drop-mc-%d-%d" % tuple(p), consts, ["DropValues"], [], depth=6)
+        mx, table, c = HC.emit(rep, "NormDrop", "drop%s-%d-%d" % (("-nested" if nested else ""), p[0], p[1]), consts)
+        c2 = dict(c, StatsSet="{}")
+        skeletons = {}
+        for h in mx:
+            sk = [{k: v for k, v in call.items() if k != "m"} for call in h]
+            skeletons[json.dumps(sk)] = sk
+        for dt in dtypes:
+            for p_int in forms:
+                rp = RN.DropReplayer(sg, dtype=dt, p_int=p_int)
+                for sk in skeletons.values():
+                    for rep_i in range(draws):      # several draws of the implementation's mask
+                        divs = rp.run(sk, lambda key: (json.loads(table[key]) if key in table else None), c2)
+                        rep.case("drop:p=%s:%s:%s:" % (p, dt, p_int) + "/".join(cl["a"] for cl in sk))
+                        rep.traces += 1
+                        for kind, key, msg in divs:
+                            if kind in kinds:
+                                rep.violation(key, msg, {"spec": "NormDrop", "layer": "drop", "consts": HC._jsonable(c2), "history": sk,
+                                                         "dtype": dt, "p_int": p_int, "divergence": [kind, key, msg]})
+        rep.sample({"layer": "Dropout", "p": p, "skeleton": list(skeletons.values())[len(skeletons) // 2]})
 
 
 B2 = [dict(shape=[2, 2], v=[1, -2, 3, 4]), dict(shape=[3, 2], v=[0, 5, 2, -1, 4, 3])]
@@ -70,6 +99,11 @@ def run(ctx):
         for tr in (True, False):
             cfgs.append(("bnbwd%s-tr%d" % (nm, tr), dict(Layer="bn", Batches=batches, NC=2, Momentum=[Q(1, 2)], Affine=True, Track=tr, Gamma=[Q(2), Q(-1)], Beta=[Q(1), Q(3)],
                                                        StatsSet=STATS, PDrop=Q(1, 2), Inputs=[], GradsIn=[], MaxHist=depth, Acts={"mode", "fwd", "bnbwd"})))
+    # the layer inside nested containers: train()/eval() issued on the root or on the layer itself
+    for mom in ([], [Q(1, 2)]):
+        cfgs.append(("bn-nested-mom%s" % ("N" if not mom else mom[0][1]),
+                     dict(Layer="bn", Batches=B2[:1], NC=2, Momentum=mom, Affine=False, Track=True, Gamma=[Q(2), Q(-1)], Beta=[Q(1), Q(3)], StatsSet=STATS,
+                          PDrop=Q(1, 2), Inputs=[], GradsIn=[], MaxHist=depth, Acts={"mode", "fwd"}, Nested=True)))
     for name, consts in cfgs:
         if name.startswith("bn2d") and consts["Affine"] and consts["Track"]:
             HC.model_check(rep, "NormDrop", name + "-mc", consts, [], PROPS, depth=6 if q else 8)
@@ -79,26 +113,8 @@ def run(ctx):
         HC.replay_all(ctx, rep, mx, table, c2, KINDS, RP, "NormDrop", label=name + ":", procs=8)
     # ---- Dropout
     sg = repo.load(ctx.repo)
-    for p in (Q(0), Q(1, 2), Q(3, 4), Q(1)):
-        consts = dict(Layer="drop", Batches=[], NC=1, Momentum=[], Affine=False, Track=False, Gamma=[], Beta=[], StatsSet=tlc.Raw("{}"),
-                      PDrop=p, Inputs=[[3, -2, 5], [1, 4]], GradsIn=[[2, -1, 3], [1, -2]], MaxHist=4 if q else 5, Acts={"mode", "fwd", "bwd"})
-        HC.model_check(rep, "NormDrop", "drop-mc-%d-%d" % tuple(p), consts, ["DropValues"], [], depth=6)
-        mx, table, c = HC.emit(rep, "NormDrop", "drop-%d-%d" % tuple(p), consts)
-        c2 = dict(c, StatsSet="{}")
-        skeletons = {}
-        for h in mx:
-            sk = [{k: v for k, v in call.items() if k != "m"} for call in h]
-            skeletons[json.dumps(sk)] = sk
-        rp = RN.DropReplayer(sg)
-        for sk in skeletons.values():
-            for rep_i in range(3):      # several draws of the implementation's mask
-                divs = rp.run(sk, lambda key: (json.loads(table[key]) if key in table else None), c2)
-                rep.case("drop:p=%s:" % p + "/".join(cl["a"] for cl in sk))
-                rep.traces += 1
-                for kind, key, msg in divs:
-                    if kind in KINDS:
-                        rep.violation(key, msg, {"spec": "NormDrop", "consts": HC._jsonable(c2), "history": sk, "divergence": [kind, key, msg]})
-        rep.sample({"layer": "Dropout", "p": p, "skeleton": list(skeletons.values())[len(skeletons) // 2]})
+    drop_history_runs(ctx, rep, sg, KINDS, 4 if q else 5, mc=True)
+    drop_history_runs(ctx, rep, sg, KINDS, 4 if q else 5, nested=True, ps=(Q(1, 2),), inputs=[[3, -2]], grads=[[2, -1]])
     # ---- statistics (outside TLC)
     stats = RN.dropout_statistics(sg, 1234 + ctx.seed)
     rep.extra["dropout_statistics"] = stats
@@ -119,10 +135,13 @@ def replay_drop_file(ctx, rp):
     c["Record"] = True
     rep = core.Report(ctx, "model_checking")
     mx, table, c = HC.emit(rep, "NormDrop", "replay", c)
-    r = RN.DropReplayer(sg)
+    r = RN.DropReplayer(sg, dtype=rp.get("dtype", "float32"), p_int=rp.get("p_int", False))
+    kinds = rp.get("kinds")
     bad = 0
     for _ in range(5):
         for d in r.run(rp["history"], lambda key: (json.loads(table[key]) if key in table else None), dict(c, StatsSet="{}")):
+            if kinds and d[0] not in kinds:
+                continue
             print("DIVERGENCE", d)
             bad += 1
     if bad:
